@@ -7,7 +7,7 @@ from typing import Any, Dict, List
 
 from mc.common import Acc
 from mc.recv_driver import replay as _replay
-from mc.recv_driver import run_scenarios
+from mc.recv_driver import mark_stateless, run_scenarios
 from mc.recv_world import RecvWorld
 
 POLL_US = 300_000
@@ -189,6 +189,8 @@ def scenarios(tier: str) -> List[Dict[str, Any]]:
 
 def shards(tier: str, seed: int) -> List[Any]:
     scs = scenarios(tier)
+    if tier == "thorough":
+        mark_stateless(scs, 6, 8)
     scs.sort(key=lambda s: (-s["level"], -len(s["msgs"])))
     big = [s for s in scs if s["level"] > 0]
     small = [s for s in scs if s["level"] == 0]
